@@ -10,6 +10,7 @@ import (
 	"bytes"
 	"crypto"
 	"crypto/ecdsa"
+	"crypto/ed25519"
 	"crypto/elliptic"
 	crand "crypto/rand"
 	"crypto/rsa"
@@ -51,6 +52,10 @@ type artefact struct {
 	tree  *derTree   // nil: not DER (raw encodings)
 	relen []relenPos // (element, length) pairs of the der-relength mutator, for the tier of the run
 	oidp  []oidPos   // positions of the der-oid mutator
+	// strings of the artefact for the text-grammar mutator: byte ranges of a text artefact declared at creation
+	// (rawText) and, computed on first use, those plus every string element of the DER tree (spans)
+	rawText [][2]int
+	spans   []textSpan
 }
 
 type world struct {
@@ -72,7 +77,11 @@ type world struct {
 
 	root, leaf, encCert, rsaCert, ecCert *smx509.Certificate
 	pool                                 *smx509.CertPool
-	now                                  time.Time
+	// the names PKI (names.go)
+	nameRoot, nameCA, nameLeaf *smx509.Certificate
+	nameLeafT, nameCAT         *x509.Certificate // templates, for constructed variants
+	namePool, nameInter        *smx509.CertPool
+	now                        time.Time
 
 	signMaster *sm9.SignMasterPrivateKey
 	encMaster  *sm9.EncryptMasterPrivateKey
@@ -209,6 +218,7 @@ func buildWorld(seed uint64) (w *world, err error) {
 
 	w.buildSM2()
 	w.buildX509()
+	w.buildNames()
 	w.buildKeys()
 	w.buildPKCS8()
 	w.buildPKCS7()
@@ -445,6 +455,29 @@ func (w *world) buildKeys() {
 	mk("key.pkix.sm2", func() ([]byte, error) { return smx509.MarshalPKIXPublicKey(&w.sm2A.PublicKey) })
 	mk("key.pkix.rsa", func() ([]byte, error) { return smx509.MarshalPKIXPublicKey(&w.rsa1.PublicKey) })
 	mk("key.pkix.ecdsa", func() ([]byte, error) { return smx509.MarshalPKIXPublicKey(&w.ecdsaP256.PublicKey) })
+	// the other key kinds the library's SPKI reader knows (no parameters / DSA domain parameters)
+	edKey := ed25519.NewKeyFromSeed(w.digest)
+	edSPKI := mk("key.pkix.ed25519", func() ([]byte, error) { return smx509.MarshalPKIXPublicKey(edKey.Public()) })
+	xSPKI := dSeq(dSeq(dOID(asn1.ObjectIdentifier{1, 3, 101, 110})), dBits(0, w.digest))
+	w.add("key.pkix.x25519", xSPKI)
+	dsaInt := func(n int) []byte { return dTLV(2, append([]byte{0x01}, w.digest[:n]...)) }
+	dsaSPKI := dSeq(dSeq(dOID(asn1.ObjectIdentifier{1, 2, 840, 10040, 4, 1}), dSeq(dsaInt(31), dsaInt(19), dsaInt(30))), dBits(0, dsaInt(29)))
+	w.add("key.pkix.dsa", dsaSPKI)
+	// ... and the genuine leaf certificate re-issued with each of them as the subject key (signed by the root)
+	if t := newDERTree(w.get("x509.cert.leaf").data); t != nil {
+		var spki *node
+		for _, n := range t.flat {
+			if n.depth == 2 && n.tag[0] == 0x30 && len(n.kids) == 2 && n.kids[1].tag[0] == 0x03 {
+				spki = n
+			}
+		}
+		if spki == nil {
+			panic(seedErr{fmt.Errorf("no SubjectPublicKeyInfo found in the leaf certificate")})
+		}
+		for _, v := range []named{{"ed25519", edSPKI}, {"x25519", xSPKI}, {"dsa", dsaSPKI}} {
+			w.add("x509.cert."+v.name, resigner(w.seed, w.sm2A)(emitReplace(t.roots, spki, v.b)))
+		}
+	}
 	mk("key.pkcs8.sm2", func() ([]byte, error) { return smx509.MarshalPKCS8PrivateKey(w.sm2A) })
 	mk("key.pkcs8.rsa", func() ([]byte, error) { return smx509.MarshalPKCS8PrivateKey(w.rsa1) })
 	mk("key.pkcs8.ecdsa", func() ([]byte, error) { return smx509.MarshalPKCS8PrivateKey(w.ecdsaP256) })
@@ -460,7 +493,13 @@ func (w *world) buildKeys() {
 	}{{"des", smx509.PEMCipherDES}, {"3des", smx509.PEMCipher3DES}, {"aes128", smx509.PEMCipherAES128}, {"aes192", smx509.PEMCipherAES192}, {"aes256", smx509.PEMCipherAES256}, {"sm4", smx509.PEMCipherSM4}} {
 		blk, err := smx509.EncryptPEMBlock(r, "SM2 PRIVATE KEY", sec1, w.pw, v.c)
 		must("pem encrypt "+v.name, err)
-		w.addRaw("pemenc."+v.name, pem.EncodeToMemory(blk))
+		a := w.addRaw("pemenc."+v.name, pem.EncodeToMemory(blk))
+		// the RFC 1421 header lines (Proc-Type, DEK-Info) are text the library reads itself
+		if i, j := bytes.IndexByte(a.data, '\n'), bytes.Index(a.data, []byte("\n\n")); i > 0 && j > i {
+			a.rawText = [][2]int{{i + 1, j + 1}}
+		} else {
+			panic(seedErr{fmt.Errorf("encrypted PEM block %s has no header region", v.name)})
+		}
 	}
 }
 
@@ -749,7 +788,14 @@ func (w *world) buildCFCA() {
 	}{1, ct[1:]})
 	must("escrow marshal", err)
 	b64 := func(d []byte) []byte { return []byte(base64.StdEncoding.EncodeToString(d)) }
-	w.addWrapped("cfca.escrow.bare", der, b64)
+	bare := w.addWrapped("cfca.escrow.bare", der, b64)
+	bare.rawText = [][2]int{{0, 4}, {len(bare.data) - 4, len(bare.data)}}
+	// the text of the prefixed form: end of the fixed prefix, the 16-digit length, the start of the base64, the
+	// first comma, the end
+	defer func() {
+		a := w.get("cfca.escrow.prefixed")
+		a.rawText = [][2]int{{56, 84}, {80 + 73, 80 + 80}, {len(a.data) - 4, len(a.data)}}
+	}()
 	w.addWrapped("cfca.escrow.prefixed", der, func(d []byte) []byte {
 		e := b64(d)
 		// commas every 76 characters, as SADK emits them
